@@ -2,7 +2,7 @@
      p <ctx l|B|a> <hex|->                                   Message::from_bytes and every accessor
      b <endian> <type> <flags> <serial> <path> <iface> <member> <errname> <reply_serial|-> <dest> <sender> <via> <body...>
    strings are x<hex> or - ; observation formats are documented in harness/hmsg/src/main.rs. *)
-From ZV Require Import Base.Bytes Base.Res Base.Sig C10.Model C10.Spec C11.Model C11.Spec C11.Body.
+From ZV Require Import Base.Bytes Base.Res Base.Sig C10.Model C10.Spec C11.Model C11.Spec C11.Body C11.BodySpec.
 Open Scope N_scope.
 
 Definition xtok (t : bytes) : option (option bytes) :=
@@ -78,6 +78,13 @@ Definition parse_shape (ws : list bytes) : option shape :=
       else if lbeq k (B "as") then option_map ShAS (xtoks args)
       else if lbeq k (B "h") then Some ShH
       else if lbeq k (B "sh") then match args with [a] => match xtok a with Some (Some s) => Some (ShSH s) | _ => None end | _ => None end
+      else if lbeq k (B "hh") then
+        match args with [i; j] => match N_of_dec i, N_of_dec j with Some a, Some c => Some (ShHH a c) | _, _ => None end | _ => None end
+      else if lbeq k (B "hv") then
+        match args with [i; j] => match N_of_dec i, N_of_dec j with Some a, Some c => Some (ShHV a c) | _, _ => None end | _ => None end
+      else if lbeq k (B "ah") then
+        (fix go (l : list bytes) (acc : list N) : option shape :=
+           match l with [] => Some (ShAH (rev acc)) | t :: r => match N_of_dec t with Some a => go r (a :: acc) | None => None end end) args []
       else if lbeq k (B "raw") then
         match args with
         | [g; bd; n] =>
@@ -129,6 +136,7 @@ Definition shape_body (e : endian) (sh : shape) : bytes :=
   match sh with
   | ShUnit => [] | ShS s => enc_s e s | ShU n => enc_u e n | ShSU s n => enc_su e s n | ShAS l => enc_as e l
   | ShH => enc_h e | ShSH s => enc_sh e s | ShRaw _ bd _ => bd
+  | ShHH _ _ => enc_hh e | ShAH l => enc_ah e (length l) | ShHV _ _ => enc_hv e
   end.
 
 Definition render_tval (t : tval) : bytes :=
@@ -136,10 +144,12 @@ Definition render_tval (t : tval) : bytes :=
   | TUnit => B "()" | TS s => xs (Some s) | TU n => dec_of_N n | TSU s n => xs (Some s) ++ B "," ++ dec_of_N n
   | TAS [] => B "-" | TAS l => join (B ",") (map (fun s => xs (Some s)) l)
   | TFd => B "fd" | TSFd s => xs (Some s) ++ B ",fd" | TNone => B "-"
+  | TFiles [] => B "-" | TFiles l => join (B ",") (map (fun f => B "f" ++ dec_of_N f) l)
   end.
 Definition shape_tval (sh : shape) : tval :=
   match sh with
   | ShUnit => TUnit | ShS s => TS s | ShU n => TU n | ShSU s n => TSU s n | ShAS l => TAS l | ShH => TFd | ShSH s => TSFd s
+  | ShHH i j | ShHV i j => TFiles [i; j] | ShAH l => TFiles l
   | ShRaw _ _ _ => TNone
   end.
 
@@ -178,8 +188,15 @@ Definition spec_names_ok (h : hdr) : bool :=
   optb spec_object_path (h_path h) && optb spec_interface (h_iface h) && optb spec_member (h_member h)
   && optb spec_interface (h_errname h) && optb spec_bus (h_dest h) && optb spec_unique (h_sender h).
 
+Definition multi_fd (sh : shape) : bool := match sh with ShHH _ _ | ShAH _ | ShHV _ _ => true | _ => false end.
+
 Definition spec_build (c : bcase) : bytes :=
   let h := bc_hdr c in let sh := bc_shape c in let e := h_endian h in
+  if multi_fd sh then
+    (* several descriptors: the property fixes "declared count = attached count" and "each descriptor comes back as the
+       file it was", not how often a repeated descriptor is attached: FDCHK is evaluated by props/C11.py *)
+    if spec_names_ok h && flags_allowed (h_type h) (h_flags h) then B "FDCHK" ++ bar ++ render_tval (shape_tval sh) else dash
+  else
   match shape_sig sh with
   | Some sg =>
       if spec_names_ok h && (len (show_np sg) <=? 255) then
